@@ -214,7 +214,7 @@ macro_rules! range_row {
                         ctx.label("within_one_word_of_bound");
                     }
                 }
-                if (mode == 2 || mode == 18) && !adversarial && !cleared && n == check_prefix_at && kfrac % 4 == 3 {
+                if (mode == 2 || mode == 18 || mode == 12) && !adversarial && !cleared && n == check_prefix_at && kfrac % 4 == 3 {
                     // clear(): "discards all compressed data and resets the coder to the same state as new()";
                     // what follows is a fresh message on an empty coder
                     let was_inverted = matches!(situation(&enc), EncoderSituation::Inverted(..));
@@ -225,8 +225,11 @@ macro_rules! range_row {
                     msg.clear();
                     refc = RefRange::new(sbits as u32, wbits as u32);
                     held_prev = 0;
+                    bound_bits = 0.0; // the size bound speaks about the message on the emptied coder
                     let ex = export(&enc);
-                    if mode == 2 {
+                    if mode == 12 {
+                        vcheck!(ex.is_empty(), "C12/range_words_after_clear", "a cleared encoder holds {} words", ex.len());
+                    } else if mode == 2 {
                         vcheck!(ex.is_empty(), "C02/empty_message_produced_words", "a cleared encoder (empty message) seals to {}", hexwords(&ex));
                     } else {
                         vcheck!(
